@@ -15,8 +15,10 @@ def rnd_prefix(rng):
 HDR = [("VERSION", 3), ("TYPE", 1), ("SEC_HDR_FLG", 1), ("PKT_APID", 11), ("SEQ_FLGS", 2), ("SRC_SEQ_CTR", 14), ("PKT_LEN", 16)]
 
 
-def int_type(name, size, kind="unsigned", default=None, context=None, order="msb", tkind="int", labels=None):
+def int_type(name, size, kind="unsigned", default=None, context=None, order="msb", tkind="int", labels=None, unit=None):
     t = {"name": name + "_T", "kind": tkind, "enc": {"t": "num", "size": size, "kind": kind, "order": order, "default": default, "context": context}}
+    if unit is not None:
+        t["unit"] = unit
     if labels is not None:
         t["labels"] = labels
     return t
@@ -28,7 +30,8 @@ def rnd_user_param(rng, name, earlier_ints):
     if r < 0.30:
         size = rng.choice([3, 5, 8, 8, 12, 16, 32])
         return {"name": name, "type": int_type(name, size, rng.choice(["unsigned", "unsigned"] + SIGNED_SPELLINGS),
-                                               order=rng.choice(["msb", "lsb"]) if size % 8 == 0 else "msb")}, size <= 16
+                                               order=rng.choice(["msb", "lsb"]) if size % 8 == 0 else "msb",
+                                               unit=rng.choice([None, None, "V", "deg C"]))}, size <= 16
     if r < 0.40:
         size, kind = rng.choice([(16, "IEEE754"), (32, "IEEE754"), (64, "IEEE754"), (32, "MILSTD_1750A"),
                                  (16, "IEEE754_1985"), (32, "IEEE754_1985"), (64, "IEEE754_1985")])
@@ -60,8 +63,9 @@ def rnd_user_param(rng, name, earlier_ints):
                 ctx.append({"criteria": crit,
                             "cal": rng.choice([["poly", [[docs.fnum(3.0), 1]]], ["poly", [[docs.fnum(0.5), 1], [docs.fnum(7.0), 0]]],
                                                ["spline", 0, False, [[docs.fnum(0.0), docs.fnum(-1.0)], [docs.fnum(64.0), docs.fnum(9.0)], [docs.fnum(255.0), docs.fnum(11.0)]]]])})
-        return {"name": name, "type": int_type(name, 8, default=cal if rng.random() < 0.8 else None, context=ctx,
-                                               tkind=rng.choice(["int", "int", "abstime"]))}, False
+        tk = rng.choice(["int", "int", "abstime"])
+        # a calibrated 8-bit integer may itself be referred to by later criteria and lengths (raw and calibrated differ)
+        return {"name": name, "type": int_type(name, 8, default=cal if rng.random() < 0.8 else None, context=ctx, tkind=tk)}, tk == "int" and rng.random() < 0.5
     if r < 0.80:   # binary
         q = rng.random()
         if earlier_ints and q < 0.5:
